@@ -824,10 +824,20 @@ class ParametricSpectrum(Spectrum):
         self.__reflection = None
         self.__rho = None
 
+    def _set_lag(self, lag):
+        if getattr(self, '_ParametricSpectrum__lag', None) != lag:
+            self.modified = True
+        self.__lag = lag
+    def _get_lag(self):
+        return self.__lag
+    lag = property(fget=_get_lag, fset=_set_lag, doc="")
+
     def _set_ar_order(self, ar):
         if ar is not None:
             if ar < 0:
                 raise errors.SpectrumARError
+            if ar != self.__ar_order:
+                self.modified = True
             self.__ar_order = ar
     def _get_ar_order(self):
         return self.__ar_order
@@ -837,9 +847,9 @@ class ParametricSpectrum(Spectrum):
         if ma is not None:
             if ma < 0:
                 raise errors.SpectrumMAError
-            self.__ma_order = ma
-        else:
-            self.__ma_order = None
+        if ma != self.__ma_order:
+            self.modified = True
+        self.__ma_order = ma
     def _get_ma_order(self):
         return self.__ma_order
     ma_order = property(fget=_get_ma_order, fset=_set_ma_order, doc="")
